@@ -54,7 +54,18 @@ const c13TomlB = `[Networks]
             Subnets = ["10.2.0.0/16", "2001:db8:b::/48"]
 `
 
+// set C has no IPv6 subnet: IPv6 selection fails while it is in force (the error path of a request)
+const c13TomlC = `[Networks]
+    [Networks.1]
+        Generation = 1
+        [[Networks.1.WeightedSubnets]]
+            Weight = 1
+            RandomizeDstPort = true
+            Subnets = ["10.3.0.0/16"]
+`
+
 var (
+	c13NetC4 = mustCIDR("10.3.0.0/16")
 	c13NetA4 = mustCIDR("10.1.0.0/16")
 	c13NetA6 = mustCIDR("2001:db8:a::/48")
 	c13NetB4 = mustCIDR("10.2.0.0/16")
@@ -108,6 +119,8 @@ func which(resp *pb.RegistrationResponse) (string, string) {
 			s4 = "A"
 		case c13NetB4.Contains(ip):
 			s4 = "B"
+		case c13NetC4.Contains(ip):
+			s4 = "C"
 		default:
 			s4 = "?" + ip.String()
 		}
@@ -138,6 +151,8 @@ func VerifC13Main() {
 	fa, fb := filepath.Join(dir, "a.toml"), filepath.Join(dir, "b.toml")
 	_ = os.WriteFile(fa, []byte(c13TomlA), 0o644)
 	_ = os.WriteFile(fb, []byte(c13TomlB), 0o644)
+	fc := filepath.Join(dir, "c.toml")
+	_ = os.WriteFile(fc, []byte(c13TomlC), 0o644)
 	met := metrics.NewMetrics(log.NewEntry(log.StandardLogger()), 1000*time.Hour)
 
 	// scenario: "<kinds>/<m>" e.g. "d/1", "d,4/2"
@@ -149,7 +164,14 @@ func VerifC13Main() {
 		c13Race(a, fa, fb, met)
 		return
 	}
-	parts := strings.Split(name, "/")
+	// "e:<kinds>/<m>": the registrar starts on set C (IPv4 only), so requests that need an IPv6 phantom take the
+	// error path until a reload installs set A; reloads alternate A, C
+	errPath := strings.HasPrefix(name, "e:")
+	first, second := fa, fb
+	if errPath {
+		first, second = fc, fa
+	}
+	parts := strings.Split(strings.TrimPrefix(name, "e:"), "/")
 	if len(parts) != 2 {
 		vh.Fatal("bad scenario %q", name)
 	}
@@ -158,7 +180,7 @@ func VerifC13Main() {
 	fmt.Sscanf(parts[1], "%d", &m)
 
 	mk := func() *vsched.Scenario {
-		os.Setenv("PHANTOM_SUBNET_LOCATION", fa)
+		os.Setenv("PHANTOM_SUBNET_LOCATION", first)
 		sel, err := phantoms.GetPhantomSubnetSelector()
 		if err != nil {
 			vh.Fatal("selector: %v", err)
@@ -189,9 +211,9 @@ func VerifC13Main() {
 				wg.Add(1)
 				vsched.GoNamed(fmt.Sprintf("reload%d", j), func() {
 					defer wg.Done()
-					f := fb
+					f := second
 					if j%2 == 1 {
-						f = fa
+						f = first
 					}
 					os.Setenv("PHANTOM_SUBNET_LOCATION", f)
 					reloadErr[j] = p.ReloadSubnets()
@@ -220,10 +242,15 @@ func VerifC13Main() {
 			if x.Verdict != vsched.VOK {
 				return &vsched.Violation{Key: x.Verdict, What: x.Detail}
 			}
+			okReqs := 0
 			for i, r := range reqs {
+				if r.ret && r.err != nil && errPath && r.kind != "4" {
+					continue // set C cannot serve an IPv6 phantom: an error answer is the complete outcome under that set
+				}
 				if !r.ret || r.err != nil || r.resp == nil {
 					return &vsched.Violation{Key: "request-failed", What: fmt.Sprintf("request %d (%s) did not complete: ret=%v err=%v", i, r.kind, r.ret, r.err)}
 				}
+				okReqs++
 				s4, s6 := which(r.resp)
 				if strings.HasPrefix(s4, "?") || strings.HasPrefix(s6, "?") {
 					return &vsched.Violation{Key: "address-outside-both-sets", What: fmt.Sprintf("request %d got %s %s", i, s4, s6)}
@@ -240,8 +267,8 @@ func VerifC13Main() {
 					return &vsched.Violation{Key: "reload-failed", What: fmt.Sprintf("reload %d: ret=%v err=%v", j, reloadRet[j], reloadErr[j])}
 				}
 			}
-			if len(snd.msgs) != len(reqs) {
-				return &vsched.Violation{Key: "forward-count", What: fmt.Sprintf("%d requests but %d messages forwarded", len(reqs), len(snd.msgs))}
+			if len(snd.msgs) != okReqs {
+				return &vsched.Violation{Key: "forward-count", What: fmt.Sprintf("%d requests answered but %d messages forwarded", okReqs, len(snd.msgs))}
 			}
 			return nil
 		}
